@@ -236,6 +236,17 @@ type Rec struct {
 	B  bool
 	S1 string
 	S2 string
+	// Pad is ballast of varying length that no query looks at: it makes the stored size of a record change from
+	// write to write, so that storage pages are split, moved and reused as in a real database
+	Pad string
+}
+
+var padSizes = []int{0, 0, 37, 400, 1500, 90, 2600, 12}
+var padCounter int
+
+func nextPad() string {
+	padCounter++
+	return strings.Repeat("p", padSizes[padCounter%len(padSizes)])
 }
 
 func buildMeta(m metaIn) *record.Meta {
@@ -281,6 +292,7 @@ func makeRecord(db string, key []int, data []field, m metaIn, form string) recor
 				obj[fieldName(f.Key)] = f.Val.B
 			}
 		}
+		obj["Pad"] = nextPad()
 		raw, err := json.Marshal(obj)
 		if err != nil {
 			panic(err)
@@ -291,7 +303,7 @@ func makeRecord(db string, key []int, data []field, m metaIn, form string) recor
 		}
 		return w
 	}
-	r := &Rec{}
+	r := &Rec{Pad: nextPad()}
 	for _, f := range data {
 		switch fieldName(f.Key) {
 		case "I1":
@@ -381,6 +393,7 @@ func fieldsOfJSON(raw []byte) []field {
 			out = append(out, fld(i, val{T: "none", S: []int{}, L: [][]int{}}))
 		}
 	}
+	delete(obj, "Pad") // the ballast field is not part of the model
 	for range obj {
 		out = append(out, field{Key: []int{0}, Val: strV("")})
 	}
